@@ -13,7 +13,7 @@ if args and args[0].startswith("--rename="):
 logs = "".join(open(f).read() for f in args)
 # verification results parsed from the logs written by tools/seedcheck.sh ... verify
 verified = {}
-for m in re.finditer(r"^######## (C\d+)/([ab])\n(.*?)(?=^######## |\Z)", logs, re.S | re.M):
+for m in re.finditer(r"^######## (C\d+)/([a-z])\n(.*?)(?=^######## |\Z)", logs, re.S | re.M):
     body = m.group(3)
     ex = re.findall(r"exit=(\d+)", body)
     tests_ok = "FAIL" not in "\n".join(l for l in body.splitlines() if l.strip().startswith("| ok") or "existing tests" in l)
@@ -24,7 +24,7 @@ out_root = "/verif/seeded"
 os.makedirs(out_root, exist_ok=True)
 summary = []
 for prop in sorted(os.listdir(src)):
-    for v in ("a", "b"):
+    for v in ("a", "b", "c"):
         d = os.path.join(src, prop, v)
         if not os.path.isfile(os.path.join(d, "patch.diff")):
             continue
